@@ -4251,6 +4251,12 @@ class MacroArgument:
 
         return self.kind in (MacroArgumentKind.MACRO, MacroArgumentKind.OUT, MacroArgumentKind.HOOK, MacroArgumentKind.LOOP, MacroArgumentKind.FINISHCODE, MacroArgumentKind.YIELDCODE)
     
+class ResolvedIdentifier(lark.Token):
+    """
+    An identifier inside a macro argument which has already been resolved in the scope of the call; it names something global and is
+    never looked up among the macro arguments that happen to be in scope where the argument is finally used.
+    """
+
 class Macro:
     def __init__(self, name_token: lark.Token, parse_tree: lark.Tree, arguments: List[MacroArgument]):
         self.name = name_token.value
@@ -4272,13 +4278,10 @@ class Macro:
                 MacroArgumentKind.MATCH: ("regex", "end_expr", "concat_expr", "string_const", "string_case_const", "binary_regex", "binary_string_const"),
                 MacroArgumentKind.INTEXPR: ("string_const", "bool_const", "number_const", "char_const", "identifier_const", *all_sum_expr_nodes)
             }[argspec.kind]
-            if argspec.kind in (MacroArgumentKind.MATCH, MacroArgumentKind.INTEXPR) and value.data == "identifier_const":
-                # the name of one of the calling macro's own match/expr arguments: forward what it is bound to (resolved
-                # here, in the caller's scope, so that it means the same as it would after textual substitution)
-                try:
-                    value = parse_ctx._lookup_named_entity(MacroArgumentKind.EXPR, value.children[0])
-                except UndefinedReferenceError:
-                    pass
+            if argspec.kind in (MacroArgumentKind.MATCH, MacroArgumentKind.INTEXPR):
+                # names inside the argument mean what they mean here, in the caller's scope (as they would after textual
+                # substitution), not whatever the called macro's own arguments happen to be called
+                value = parse_ctx._resolve_names_in_macro_argument(value)
             if value.data not in allowed_types:
                 raise IllegalParseTree("Invalid argument type for argument " + argspec.name, value)
             if argspec.should_early_bind():
@@ -4367,6 +4370,31 @@ class ParseCtx:
         if self.ast is None:
             raise IllegalParseTree("Parser never matches anything (it consists only of actions)", parser_decl)
 
+    def _resolve_names_in_macro_argument(self, tree):
+        """
+        Copy a match/expr macro argument with every name in it bound in the current (the caller's) scope: names of the caller's own
+        match/expr arguments are replaced by what they are bound to, names of its out arguments by the output they stand for, and
+        everything else is marked as global.
+        """
+
+        if not isinstance(tree, lark.Tree):
+            return tree
+        names_something = tree.data in ("identifier_const", "math_var", "math_str_len", "math_str_index") and not isinstance(tree.children[0], ResolvedIdentifier)
+        if names_something and tree.data in ("identifier_const", "math_var"):
+            for entry in reversed(self.bound_argument_stack):
+                if (MacroArgumentKind.EXPR, tree.children[0].value) in entry:
+                    return entry[(MacroArgumentKind.EXPR, tree.children[0].value)]
+        children = [self._resolve_names_in_macro_argument(x) for x in tree.children]
+        if names_something:
+            token = tree.children[0]
+            name = token.value
+            for entry in reversed(self.bound_argument_stack):
+                if (MacroArgumentKind.OUT, name) in entry:
+                    name = entry[(MacroArgumentKind.OUT, name)].name
+                    break
+            children[0] = ResolvedIdentifier.new_borrow_pos("IDENTIFIER", name, token)
+        return lark.Tree(tree.data, children, tree.meta)
+
     def _lookup_named_entity(self, context: Union[MacroArgumentKind, Iterable[MacroArgumentKind]], from_tree: lark.Token):
         assert from_tree.type == "IDENTIFIER"
         name = from_tree.value
@@ -4380,9 +4408,10 @@ class ParseCtx:
             raise UndefinedReferenceError(None, from_tree)
 
         # check if in bound argument stack
-        for entry in reversed(self.bound_argument_stack):
-            if (context, name) in entry:
-                return entry[(context, name)]
+        if not isinstance(from_tree, ResolvedIdentifier):
+            for entry in reversed(self.bound_argument_stack):
+                if (context, name) in entry:
+                    return entry[(context, name)]
         # otherwise, try and find globally 
         if context not in [MacroArgumentKind.MACRO, MacroArgumentKind.LOOP, MacroArgumentKind.HOOK, MacroArgumentKind.OUT, MacroArgumentKind.FINISHCODE, MacroArgumentKind.YIELDCODE]:
             raise UndefinedReferenceError("named expression", from_tree)
